@@ -33,7 +33,13 @@ func VerifC15ParseLines() {
 	var wantSeq []string
 	badAt := -1
 	for i := 0; i < K; i++ {
-		switch verifrt.Choose("line-kind", 3) {
+		switch verifrt.Choose("line-kind", 4) {
+		case 3: // a non-empty line of white space only: malformed, must not be skipped
+			if badAt >= 0 {
+				return
+			}
+			sent = append(sent, verifrt.Str("blank", 1, 2, `[ \t\r]`))
+			badAt = i
 		case 0: // a well-formed single-record event
 			t := verifrt.Template("type=LOGIN msg=audit(10.000:", verifrt.F("seq", 2, 2, `[0-9]`), "): pid=1")
 			verifrt.Assume(t.Fields[0][0] != '0')
